@@ -47,8 +47,17 @@ Definition quantifier_body (s : list N) : option (list N * list N) :=
     | _ => None
     end
   end.
-(* pass B: every `{digits}`, `{digits,digits}` or `{digits,}` (leftmost, not overlapping; also right after a backslash) stays as it is; a
+(* pass B: a backslash followed by p P x u U keeps the curly brackets that follow it directly; every `{digits}`, `{digits,digits}` or `{digits,}` (leftmost, not overlapping; also right after a backslash) stays as it is; a
    backslash protects the next character; every other curly bracket gets a backslash *)
+(* escapes that take their argument in curly brackets: \p{..} \P{..} \x{..} \u{..} \U{..}; the text up to and including the
+   first closing bracket belongs to the escape *)
+Definition takes_braces (c : N) : bool := (c =? 112) || (c =? 80) || (c =? 120) || (c =? 117) || (c =? 85).
+Fixpoint split_close (l : list N) : option (list N * list N) :=
+  match l with
+  | [] => None
+  | c :: r => if c =? 125 then Some ([c], r)
+              else match split_close r with Some (a, b) => Some (c :: a, b) | None => None end
+  end.
 Definition is_quantifier_start (s : list N) : bool :=
   match s with c :: r => (c =? 123) && (match quantifier_body r with Some _ => true | None => false end) | [] => false end.
 Fixpoint misused_rep (fuel : nat) (s : list N) : list N :=
@@ -67,7 +76,14 @@ Fixpoint misused_rep (fuel : nat) (s : list N) : list N :=
       else if c =? 92 then
         match r with
         | [] => [92]
-        | c2 :: r2 => if is_quantifier_start r then 92 :: misused_rep f r else 92 :: c2 :: misused_rep f r2
+        | c2 :: r2 =>
+          if is_quantifier_start r then 92 :: misused_rep f r
+          else if takes_braces c2 && (match r2 with 123 :: _ => true | _ => false end) then
+            match split_close r2 with
+            | Some (inner, rest) => 92 :: c2 :: inner ++ misused_rep f rest
+            | None => 92 :: c2 :: misused_rep f r2
+            end
+          else 92 :: c2 :: misused_rep f r2
         end
       else c :: misused_rep f r
     end
